@@ -20,6 +20,7 @@ import (
 	"crypto/sha256"
 	"errors"
 	"fmt"
+	"sync"
 
 	"github.com/google/uuid"
 	e2types "github.com/wealdtech/go-eth2-types/v2"
@@ -67,7 +68,14 @@ func (b *base) ID() uuid.UUID                { return b.id }
 func (b *base) Name() string                 { return b.name }
 func (b *base) PublicKey() e2types.PublicKey { return b.key.PublicKey() }
 func (b *base) core() *base                  { return b }
-func (b *base) note(m string)                { *b.calls = append(*b.calls, fmt.Sprintf("%s:%s", b.name, m)) }
+func (b *base) note(m string) {
+	noteMu.Lock()
+	*b.calls = append(*b.calls, fmt.Sprintf("%s:%s", b.name, m))
+	noteMu.Unlock()
+}
+
+// noteMu guards the call logs (requests of a concurrent group sign in parallel).
+var noteMu sync.Mutex
 
 type hasCore interface{ core() *base }
 
